@@ -322,6 +322,39 @@ def gen_config(rng, adversarial=False, profile="default"):
         cfg.pop("retries", None)
         co = [x for x in co if not x.startswith("rejoin=") and not x.startswith("mps=")]
         co.append(f"rejoin={rng.choice(['post', 'always'])}")
+    if profile == "connects":
+        # the CONNECT the client builds: every optional field of the options and of the will, no / empty client id,
+        # wills whose topic or response topic is not a topic name
+        co = [x for x in co if not x.startswith("cid=") and not x.startswith("w.")]
+        r = rng.randint(0, 9)
+        if r < 4:
+            co.append("cid=" + hexs(b"cl" + bytes([rng.randint(0x61, 0x7a)])))
+        elif r < 6:
+            co.append("cid=x")
+        if rng.chance(0.3):
+            co.append(f"rri={rng.choice([0, 1])}")
+        if rng.chance(0.3):
+            co.append(f"rpi={rng.choice([0, 1])}")
+        if rng.chance(0.6):
+            wt = rng.choice([b"will/t", b"w", b"will/t", b"a/b/c", b"a/#", b"", b"+/status", b"#", b"a//b", b"$sys/w"])
+            w = ["w.topic=" + hexs(wt), f"w.qos={rng.choice([0, 1, 2])}", f"w.retain={rng.choice([0, 1])}"]
+            if rng.chance(0.7):
+                w.append("w.payload=" + hexs(bytes(rng.randint(0, 255) for _ in range(rng.choice([0, 1, 3, 40])))))
+            if rng.chance(0.3):
+                w.append("w.rt=" + hexs(rng.choice([b"r/t", b"r/t", b"r/+", b"", b"r/#"])))
+            if rng.chance(0.3):
+                w.append("w.cd=" + hexs(b"\x00\x01c"))
+            if rng.chance(0.3):
+                w.append("w.ct=" + hexs(b"text/plain"))
+            if rng.chance(0.3):
+                w.append(f"w.mei={rng.choice([0, 1, 4294967295])}")
+            if rng.chance(0.3):
+                w.append(f"w.pfi={rng.choice([0, 1])}")
+            if rng.chance(0.3):
+                w.append("w.up=" + hexs(b"wk") + ":" + hexs(b"wv"))
+            co += w
+            if rng.chance(0.4):
+                co.append(f"wdi={rng.choice([0, 1, 3600])}")
     head = " ".join(f"{k}={val}" for k, val in cfg.items())
     return cfg, f"eng.new {head} | " + " ".join(co), ka
 
